@@ -484,6 +484,7 @@ class Product:
             st['own:P%d' % i_] = I(1 if i_ == 0 else 0)
         st['na'] = I(0)
         st['spawn_overflow'] = z3.BoolVal(False)
+        st['handed_bad'] = z3.BoolVal(False)
         self.reg_syms = {}
         for P_ in list(x.programs.values()):
             for ops, leaf in P_.paths:
@@ -810,6 +811,11 @@ class Product:
             c = cur['cur:' + sl]
             upd['dl'] = [z3.If(cur['dn'] == i, c, cur['dl'][i]) for i in range(A)]
             upd['dn'] = cur['dn'] + 1
+            # C15: while the wrapped sink (user code, may take arbitrarily long) holds a metric, the library has nothing
+            # pending on this thread: the drained counter must already include the metric being handed over
+            drn = [n for n in self.x.init['atomics'] if n.endswith('drained')]
+            if drn:
+                upd['handed_bad'] = z3.Or(cur['handed_bad'], cur['at:' + drn[0]] != cur['dn'] + 1)
         elif k == 'handler':
             upd['hcalls'] = cur['hcalls'] + 1
         elif k == 'wrapped_drop':
@@ -831,6 +837,9 @@ class Product:
                 if nm in self.reg_syms:
                     v8 = cur['reg:%s:%s' % (sl, nm)]
                     subs.append((c, z3.ZeroExt(c.size() - self.W, v8) if c.size() > self.W else v8))
+                elif nm == 'cap' and (self.bounded or self.rendezvous):
+                    # the capacity the user configured (the builder's argument): this configuration's capacity
+                    subs.append((c, z3.ZeroExt(c.size() - self.W, cap) if c.size() > self.W else cap))
                 else:
                     free_env = True
             if free_env:
@@ -896,6 +905,7 @@ class Product:
             # the counters are observable only through a live handle
             out[('C15', 'submitted-counts-ok-emits')] = at_term(lambda stt: z3.And(z3.UGE(stt['nh'], 1), stt['at:' + sub[0]] != stt['oks']))
             out[('C15', 'drained-counts-deliveries')] = at_term(lambda stt: z3.And(z3.UGE(stt['nh'], 1), stt['at:' + dr[0]] != stt['dn']))
+            out[('C15', 'drained-counts-handed')] = any_t(lambda t: S[t]['handed_bad'])
             out[('C15', 'ok-emits-are-accepted')] = at_term(lambda stt: z3.And(z3.UGE(stt['nh'], 1), stt['oks'] != stt['an']))
         if x.handler:
             out[('C16', 'handler-once-per-error')] = at_term(lambda stt: stt['hcalls'] != stt['errs'])
